@@ -460,6 +460,53 @@ fn lattice(tier: Tier) -> (u64, u64, Vec<Violation>) {
             // become slave to P, announce on the master port, P changes its contents, announce again
             let hist = vec![Ev::Ann(0, 0), Ev::Ann(0, 0), Ev::T(1, Timer::Receipt), Ev::Bmca, Ev::T(1, Timer::Announce), Ev::Ann(0, 1), Ev::T(1, Timer::Announce), Ev::Ann(0, 0), Ev::T(1, Timer::Announce)];
             let mut o = sys.run_all_judged(&hist).violations;
+            // end to end (and against vacuity): a parent that outranks the instance IS followed, so
+            // the three Announces of the master port carry P's, the changed and again P's content
+            // with stepsRemoved + 1
+            if c.priority1 < 128 {
+                struct O(Vec<Option<View>>);
+                impl Observer for O {
+                    fn post(&mut self, _r: &mut Run<'_>, s: &Step) {
+                        if s.ev == Ev::T(1, Timer::Announce) {
+                            let mut got = None;
+                            for (_, a) in &s.acts {
+                                for i in a {
+                                    if let Some(Ok(m)) = &i.decoded {
+                                        got = view_of_frame(m).map(|x| norm(x.0));
+                                    }
+                                }
+                            }
+                            self.0.push(got);
+                        }
+                    }
+                }
+                let mut obs = O(vec![]);
+                sys.cfg.exec(&hist, &mut obs, |_| ());
+                let want_of = |p: &Peer| -> Option<View> {
+                    let m = p.announce_msg(0);
+                    view_of_frame(&m).map(|x| {
+                        let mut v = x.0;
+                        v.steps += 1;
+                        norm(v)
+                    })
+                };
+                let wants = [want_of(c), want_of(&changed), want_of(c)];
+                for (i, w) in wants.iter().enumerate() {
+                    let g = obs.0.get(i).cloned().flatten();
+                    if g != *w {
+                        let field = match (&g, w) {
+                            (Some(a), Some(b)) => first_diff(a, b),
+                            _ => "no-announce",
+                        };
+                        o.push(Violation {
+                            signature: format!("announce-differs-from-parent-content:{field}"),
+                            message: format!("Announce {} of the master port after the parent announced {:?}: got {:?}, want {:?}", i + 1, if i == 1 { &changed } else { c }, g, w),
+                            replay: json!(null),
+                        });
+                        break;
+                    }
+                }
+            }
             for v in &mut o {
                 v.replay = json!({"kind": "lattice", "peer": format!("{:?}", c)});
             }
